@@ -612,6 +612,103 @@ Proof.
   destruct D1 as (D1 & _). split; [exact D1 | exact D2].
 Qed.
 
+(* ---------- the domain is forced: only records that fit their fields can have an accepted message ---------- *)
+
+Lemma words16_range : forall n bs, length bs = (2 * n)%nat -> byte_list bs ->
+  Forall (fun v => 0 <= v < 2 ^ 16) (words16 bs).
+Proof.
+  induction n as [|n IH]; intros bs L B.
+  - destruct bs; [constructor | discriminate].
+  - destruct bs as [|b0 [|b1 rest]]; try (cbn in L; lia).
+    inversion B as [|? ? H0 B']; subst. inversion B' as [|? ? H1 B'']; subst.
+    cbn [words16]. constructor; [|apply IH; [cbn in L; lia | assumption]].
+    cbn [unle]. lia.
+Qed.
+
+Lemma words64_range : forall n bs, length bs = (8 * n)%nat -> byte_list bs ->
+  Forall (fun v => 0 <= v < 2 ^ 64) (words64 bs).
+Proof.
+  induction n as [|n IH]; intros bs L B.
+  - destruct bs; [constructor | discriminate].
+  - destruct bs as [|b0 [|b1 [|b2 [|b3 [|b4 [|b5 [|b6 [|b7 rest]]]]]]]]; try (cbn in L; lia).
+    assert (B8 : byte_list [b0; b1; b2; b3; b4; b5; b6; b7] /\ byte_list rest).
+    { unfold byte_list in *. repeat match goal with H : Forall _ (_ :: _) |- _ => inversion H; clear H; subst end.
+      split; [repeat (apply Forall_cons; [assumption|]); apply Forall_nil | assumption]. }
+    destruct B8 as (B8 & Br).
+    cbn [words64]. constructor; [|apply IH; [cbn in L; lia | assumption]].
+    apply (unle_bound _ B8).
+Qed.
+
+Lemma int64_at_range hdr off : byte_list hdr -> 0 <= off -> off + 8 <= zlen hdr ->
+  - 2 ^ 63 <= int64_at hdr off < 2 ^ 63.
+Proof.
+  intros Hb Ho Hl. unfold int64_at.
+  apply (twos_range 64); [lia|]. apply (uint_at_bound hdr off 8%nat); [assumption | lia | lia].
+Qed.
+
+Lemma decode_record_range msg f : decode_record msg = Some f ->
+  0 <= f_chan f < 2 ^ 16 /\ 0 <= f_pre f < 2 ^ 32 /\ 0 <= f_nsamp f < 2 ^ 32 /\
+  0 <= f_period f < 2 ^ 32 /\ 0 <= f_vpa f < 2 ^ 32 /\
+  - 2 ^ 63 <= f_time f < 2 ^ 63 /\ - 2 ^ 63 <= f_frame f < 2 ^ 63 /\
+  Forall (fun v => 0 <= v < 2 ^ 16) (f_samples f).
+Proof.
+  unfold decode_record.
+  destruct msg as [|hdr [|payload [|x l]]]; try discriminate.
+  match goal with |- (if ?c then _ else _) = _ -> _ => destruct c eqn:C end; [|discriminate].
+  intros [= <-]. cbn [f_chan f_signed f_pre f_nsamp f_period f_vpa f_time f_frame f_samples].
+  rewrite !andb_true_iff, !Z.eqb_eq in C.
+  destruct C as (((((Hlen & Hb) & Hpb) & Hver) & Hty) & Hpl).
+  apply bytes_ok_iff in Hb. apply bytes_ok_iff in Hpb. fold (byte_list hdr) in Hb. fold (byte_list payload) in Hpb.
+  pose proof (uint_at_bound hdr 8 4%nat Hb ltac:(lia) ltac:(lia)) as Bn.
+  repeat split;
+    try (apply (uint_at_bound hdr _ 2%nat); [assumption | lia | lia]);
+    try (apply (uint_at_bound hdr _ 4%nat); [assumption | lia | lia]);
+    try (apply int64_at_range; [assumption | lia | lia]).
+  apply (words16_range (Z.to_nat (uint_at hdr 8 4))); [|assumption]. unfold zlen in Hpl. lia.
+Qed.
+
+Lemma decode_summary_range msg f : decode_summary msg = Some f ->
+  0 <= s_chan f < 2 ^ 16 /\ 0 <= s_pre f < 2 ^ 32 /\ 0 <= s_nsamp f < 2 ^ 32 /\
+  0 <= s_ptmean f < 2 ^ 32 /\ 0 <= s_peak f < 2 ^ 32 /\ 0 <= s_rms f < 2 ^ 32 /\
+  0 <= s_avg f < 2 ^ 32 /\ 0 <= s_resid f < 2 ^ 32 /\
+  - 2 ^ 63 <= s_time f < 2 ^ 63 /\ - 2 ^ 63 <= s_frame f < 2 ^ 63 /\
+  Forall (fun v => 0 <= v < 2 ^ 64) (s_coefs f).
+Proof.
+  unfold decode_summary.
+  destruct msg as [|hdr [|payload [|x l]]]; try discriminate.
+  match goal with |- (if ?c then _ else _) = _ -> _ => destruct c eqn:C end; [|discriminate].
+  intros [= <-].
+  cbn [s_chan s_pre s_nsamp s_ptmean s_peak s_rms s_avg s_resid s_time s_frame s_coefs].
+  rewrite !andb_true_iff, !Z.eqb_eq in C.
+  destruct C as ((((Hlen & Hb) & Hpb) & Hver) & Hpl).
+  apply bytes_ok_iff in Hb. apply bytes_ok_iff in Hpb. fold (byte_list hdr) in Hb. fold (byte_list payload) in Hpb.
+  repeat split;
+    try (apply (uint_at_bound hdr _ 2%nat); [assumption | lia | lia]);
+    try (apply (uint_at_bound hdr _ 4%nat); [assumption | lia | lia]);
+    try (apply int64_at_range; [assumption | lia | lia]).
+  apply (words64_range (Z.to_nat (zlen payload / 8))); [|assumption].
+  pose proof (Z.div_mod (zlen payload) 8 ltac:(lia)) as E. pose proof (zlen_nonneg payload).
+  assert (0 <= zlen payload / 8) by (apply Z.div_pos; lia). unfold zlen in *. lia.
+Qed.
+
+(* no message whatsoever is accepted for a record outside the domain *)
+Lemma checker_implies_fits_proof r recmsg summsg : C14_check r recmsg summsg = true -> fits r.
+Proof.
+  intro H. destruct (checker_sound_proof r recmsg summsg H) as (D1 & D2 & _).
+  apply decode_record_range in D1. apply decode_summary_range in D2.
+  cbn [rec_fields_of sum_fields_of f_chan f_signed f_pre f_nsamp f_period f_vpa f_time f_frame f_samples
+       s_chan s_pre s_nsamp s_ptmean s_peak s_rms s_avg s_resid s_time s_frame s_coefs] in D1, D2.
+  unfold fits. intuition.
+Qed.
+
+Lemma checker_characterisation_proof r recmsg summsg :
+  C14_check r recmsg summsg = true <-> fits r /\ recmsg = record_msg r /\ summsg = summary_msg r.
+Proof.
+  split.
+  - intro H. split; [eapply checker_implies_fits_proof; exact H | eapply checker_tight_proof; exact H].
+  - intros (F & -> & ->). now apply model_passes_checker_proof.
+Qed.
+
 (* the frame index read as an UNSIGNED 64-bit value (how the Go comments describe the field) is the
    record's frame whenever that is non-negative, i.e. always in practice *)
 Lemma frame_unsigned_proof r : 0 <= r_frame r < 2 ^ 63 ->
